@@ -970,6 +970,36 @@ def applicable(exo, ir):
     return out
 
 
+def first_data_op(ir):
+    """operator of the first binary operation on data the printer meets (what mutation `op` changes)"""
+    from exo.core.LoopIR import LoopIR
+    found = []
+
+    def ex(e):
+        if isinstance(e, LoopIR.BinOp):
+            ex(e.lhs)
+            ex(e.rhs)
+            found.append(e.op)
+        elif isinstance(e, LoopIR.USub):
+            ex(e.arg)
+        elif isinstance(e, LoopIR.Extern):
+            for a in e.args:
+                ex(a)
+
+    def st(ss):
+        for s in ss:
+            if isinstance(s, (LoopIR.Assign, LoopIR.Reduce)):
+                ex(s.rhs)
+            elif isinstance(s, LoopIR.For):
+                st(s.body)
+            elif isinstance(s, LoopIR.If):
+                st(s.body)
+                st(s.orelse)
+
+    st(ir.body)
+    return found[0] if found else None
+
+
 def make_jobs(ctx, exo, cands, names):
     """one plain instance per candidate, and every mutation kind on `k` candidates it applies to"""
     rng = ctx.rng
@@ -984,7 +1014,17 @@ def make_jobs(ctx, exo, cands, names):
     for m in MUTS:
         pool = [c for c in names if m in app[c]]
         rng.shuffle(pool)
-        # prefer generated sub-procedures and instructions alike
+        if m == "op":
+            # one candidate per operator, so that `+`/`-` and `*`/`/` confusions are both tried
+            seen, pick = set(), []
+            for c in pool:
+                o = first_data_op(cands[c]._loopir_proc)
+                if o not in seen:
+                    seen.add(o)
+                    pick.append(c)
+            pool = pick + [c for c in pool if c not in pick]
+            jobs += [(c, m) for c in pool[:max(k, len(pick))]]
+            continue
         jobs += [(c, m) for c in pool[:k]]
     rng.shuffle(jobs)
     return jobs
